@@ -36,9 +36,10 @@ Record sock := {
   s_routes : list N;                          (* agents with an open route *)
   s_addr : list (N * (N * N));                (* downlink -> (node, lane) it was attached with *)
   s_gone : list N;                            (* downlinks whose reader has been dropped (not yet noticed) *)
-  s_stopped : bool                            (* an invalid frame has ended the task *)
+  s_stopped : bool;                           (* an invalid frame has ended the task *)
+  s_senders : list N                          (* send-only clients (AttachClient::OneWay) *)
 }.
-Definition sock0 : sock := {| s_subs := []; s_routes := []; s_addr := []; s_gone := []; s_stopped := false |}.
+Definition sock0 : sock := {| s_subs := []; s_routes := []; s_addr := []; s_gone := []; s_stopped := false; s_senders := [] |}.
 
 Definition memN (x : N) (l : list N) : bool := existsb (N.eqb x) l.
 
@@ -61,10 +62,11 @@ Inductive sop :=
 | OInResp (p : resp)                          (* a response envelope arrives *)
 | OInBad                                      (* a frame that is not an envelope arrives *)
 | OAgentSend (node : N) (p : resp)            (* an agent with an open route writes a response *)
-| ODlSend (d : N) (q : req).                  (* a downlink writes a request *)
+| ODlSend (d : N) (q : req)                   (* a downlink (or a send-only client) writes a request *)
+| OAttachSender (d : N).                      (* a send-only client (AttachClient::OneWay): requests out, nothing back *)
 
 Definition set_subs (s : sock) (m : list (N * list (N * list N))) : sock :=
-  {| s_subs := m; s_routes := s_routes s; s_addr := s_addr s; s_gone := s_gone s; s_stopped := s_stopped s |}.
+  {| s_subs := m; s_routes := s_routes s; s_addr := s_addr s; s_gone := s_gone s; s_stopped := s_stopped s; s_senders := s_senders s |}.
 
 (* the two-level table *)
 Definition tbl := list (N * list (N * list N)).
@@ -84,9 +86,9 @@ Definition sstep (plane : list N) (s : sock) (o : sop) : sock * list delivery :=
   match o with
   | OAttach d node lane =>
       ({| s_subs := tset (s_subs s) node lane (tget (s_subs s) node lane ++ [d]); s_routes := s_routes s;
-          s_addr := s_addr s ++ [(d, (node, lane))]; s_gone := s_gone s; s_stopped := false |}, [])
+          s_addr := s_addr s ++ [(d, (node, lane))]; s_gone := s_gone s; s_stopped := false; s_senders := s_senders s |}, [])
   | ODrop d =>
-      ({| s_subs := s_subs s; s_routes := s_routes s; s_addr := s_addr s; s_gone := d :: s_gone s; s_stopped := false |}, [])
+      ({| s_subs := s_subs s; s_routes := s_routes s; s_addr := s_addr s; s_gone := d :: s_gone s; s_stopped := false; s_senders := s_senders s |}, [])
   | OInResp p =>
       (* send_response: every writer is tried; those whose channel is gone are removed; an entry left without
          writers is removed (an address nobody registered has no entry: nothing happens) *)
@@ -102,17 +104,20 @@ Definition sstep (plane : list N) (s : sock) (o : sop) : sock * list delivery :=
       if memN (q_node q) plane then
         ({| s_subs := s_subs s;
             s_routes := if memN (q_node q) (s_routes s) then s_routes s else s_routes s ++ [q_node q];
-            s_addr := s_addr s; s_gone := s_gone s; s_stopped := false |}, [DReq (q_node q) q])
+            s_addr := s_addr s; s_gone := s_gone s; s_stopped := false; s_senders := s_senders s |}, [DReq (q_node q) q])
       else
         (s, match q_kind q with QCommand => [] | _ => [DFrame (FNotFound (q_node q) (q_lane q))] end)
   | OInBad =>
-      ({| s_subs := s_subs s; s_routes := s_routes s; s_addr := s_addr s; s_gone := s_gone s; s_stopped := true |}, [])
+      ({| s_subs := s_subs s; s_routes := s_routes s; s_addr := s_addr s; s_gone := s_gone s; s_stopped := true; s_senders := s_senders s |}, [])
   | OAgentSend node p => (s, if memN node (s_routes s) then [DFrame (FResp p)] else [])
   | ODlSend d q =>
       (s, match lookup d (s_addr s) with
           | Some _ => if memN d (s_gone s) then [] else [DFrame (FReq q)]
-          | None => []
+          | None => if memN d (s_senders s) && negb (memN d (s_gone s)) then [DFrame (FReq q)] else []
           end)
+  | OAttachSender d =>
+      ({| s_subs := s_subs s; s_routes := s_routes s; s_addr := s_addr s; s_gone := s_gone s; s_stopped := false;
+          s_senders := d :: s_senders s |}, [])
   end.
 
 Fixpoint srun (plane : list N) (s : sock) (ops : list sop) : list (list delivery) :=
@@ -164,14 +169,14 @@ Definition sd_corr_bad (cs : list (N * sdcase)) : list N :=
    registration list, no tables): an arriving response reaches exactly the downlinks owed it, unchanged; an
    arriving request reaches the agent of its node, unchanged, or is answered not-found; nothing else is
    delivered anywhere; what agents and downlinks send leaves the socket unchanged *)
-Record ospec := { o_addr : list (N * (N * N)); o_gone : list N; o_routes : list N; o_stopped : bool }.
-Definition ospec0 : ospec := {| o_addr := []; o_gone := []; o_routes := []; o_stopped := false |}.
+Record ospec := { o_addr : list (N * (N * N)); o_gone : list N; o_routes : list N; o_stopped : bool; o_senders : list N }.
+Definition ospec0 : ospec := {| o_addr := []; o_gone := []; o_routes := []; o_stopped := false; o_senders := [] |}.
 
 Definition expected (plane : list N) (s : ospec) (o : sop) : ospec * list delivery :=
   if o_stopped s then (s, []) else
   match o with
-  | OAttach d n l => ({| o_addr := o_addr s ++ [(d, (n, l))]; o_gone := o_gone s; o_routes := o_routes s; o_stopped := false |}, [])
-  | ODrop d => ({| o_addr := o_addr s; o_gone := d :: o_gone s; o_routes := o_routes s; o_stopped := false |}, [])
+  | OAttach d n l => ({| o_addr := o_addr s ++ [(d, (n, l))]; o_gone := o_gone s; o_routes := o_routes s; o_stopped := false; o_senders := o_senders s |}, [])
+  | ODrop d => ({| o_addr := o_addr s; o_gone := d :: o_gone s; o_routes := o_routes s; o_stopped := false; o_senders := o_senders s |}, [])
   | OInResp p =>
       (s, map (fun d => DResp d p)
               (map fst (filter (fun da => (fst (snd da) =? p_node p) && (snd (snd da) =? p_lane p) && negb (memN (fst da) (o_gone s)))
@@ -179,12 +184,15 @@ Definition expected (plane : list N) (s : ospec) (o : sop) : ospec * list delive
   | OInReq q =>
       if memN (q_node q) plane
       then ({| o_addr := o_addr s; o_gone := o_gone s;
-              o_routes := if memN (q_node q) (o_routes s) then o_routes s else o_routes s ++ [q_node q]; o_stopped := false |},
+              o_routes := if memN (q_node q) (o_routes s) then o_routes s else o_routes s ++ [q_node q]; o_stopped := false; o_senders := o_senders s |},
             [DReq (q_node q) q])
       else (s, match q_kind q with QCommand => [] | _ => [DFrame (FNotFound (q_node q) (q_lane q))] end)
-  | OInBad => ({| o_addr := o_addr s; o_gone := o_gone s; o_routes := o_routes s; o_stopped := true |}, [])
+  | OInBad => ({| o_addr := o_addr s; o_gone := o_gone s; o_routes := o_routes s; o_stopped := true; o_senders := o_senders s |}, [])
   | OAgentSend n p => (s, if memN n (o_routes s) then [DFrame (FResp p)] else [])
-  | ODlSend d q => (s, if memN d (map fst (o_addr s)) && negb (memN d (o_gone s)) then [DFrame (FReq q)] else [])
+  | ODlSend d q =>
+      (s, if (memN d (map fst (o_addr s)) || memN d (o_senders s)) && negb (memN d (o_gone s)) then [DFrame (FReq q)] else [])
+  | OAttachSender d =>
+      ({| o_addr := o_addr s; o_gone := o_gone s; o_routes := o_routes s; o_stopped := false; o_senders := d :: o_senders s |}, [])
   end.
 
 Fixpoint spec_run (plane : list N) (s : ospec) (ops : list sop) : list (list delivery) :=
